@@ -57,6 +57,11 @@
   { smooth::Map<const G> A(a); Eigen::Map<const VTAN(G)> T(t); smooth::Map<G> O(o); O = A + T; }            \
   extern "C" void P##_rminus(const VSC(G) * a, const VSC(G) * b, VSC(G) * t)                                \
   { smooth::Map<const G> A(a), B(b); Eigen::Map<VTAN(G)> T(t); T = A - B; }                                 \
+  /* the Manifold interface of a Lie group (traits::man<G> in concepts/lie_group.hpp), through the free functions */ \
+  extern "C" void P##_man_rplus(const VSC(G) * a, const VSC(G) * t, VSC(G) * o)                             \
+  { const G A = smooth::Map<const G>(a); const VTAN(G) T = Eigen::Map<const VTAN(G)>(t); smooth::Map<G> O(o); O = smooth::rplus(A, T); } \
+  extern "C" void P##_man_rminus(const VSC(G) * a, const VSC(G) * b, VSC(G) * t)                            \
+  { const G A = smooth::Map<const G>(a), B = smooth::Map<const G>(b); Eigen::Map<VTAN(G)> T(t); T = smooth::rminus(A, B); } \
   extern "C" void P##_imul(VSC(G) * a, const VSC(G) * b)                                                    \
   { smooth::Map<G> A(a); smooth::Map<const G> B(b); A *= B; }                                               \
   extern "C" void P##_iadd(VSC(G) * a, const VSC(G) * t)                                                    \
